@@ -128,7 +128,7 @@ func diffPair(r *rand.Rand, dir string, k int) (string, string, error) {
 		case strings.HasPrefix(fn.Name, "Twin"):
 			p.Refactor(r, i, []string{"rename-func"}, nil)
 		case i%5 == 1:
-			p.Mutate(r, i, "")
+			p.Mutate(r, i, "op-swap") // an edit that keeps the file compiling
 		case i%5 == 2:
 			p.Refactor(r, i, []string{"rename-func"}, nil)
 		case i%7 == 3:
@@ -170,6 +170,12 @@ func tree(r *rand.Rand, dir string) (root string, files []string) {
 			// identical short names and bodies across packages: tied sort keys
 			same := rand.New(rand.NewSource(4242 + int64(fi)))
 			f.Funcs = append(f.Funcs, gen.Function(same, fmt.Sprintf("Run%d", fi), gen.SigII, 5))
+			if fi == 0 && pi < 2 {
+				// same name, same shape, string literals with the same byte distribution: the two
+				// alerts tie on every numeric field and differ only in strings_matched
+				lit := []string{"cmd-aaa", "cmd-bbb"}[pi]
+				f.Funcs = append(f.Funcs, gen.Func{Name: "Beacon", Text: "func Beacon(a int, b int) int {\n\treturn strings.Count(\"" + lit + "\", strconv.Itoa(a)) + b\n}\n"})
+			}
 			if fi == 0 {
 				for k := 0; k < 5; k++ {
 					f.Funcs = append(f.Funcs, gen.Function(r, fmt.Sprintf("U%d_%d", pi, k), gen.SigII, 3+r.Intn(5)))
@@ -223,14 +229,35 @@ func main() {
 	}
 	root, files := tree(r, dir)
 	// databases: every package indexed under the same --name, so signature names tie
-	for _, db := range []string{filepath.Join(dir, "sigs.db"), filepath.Join(dir, "sigs.json")} {
-		for _, f := range files {
-			cmd := exec.Command(sfw, "index", "--name", "T", "--db", db, f)
-			cmd.Dir = root
-			if out, err := cmd.CombinedOutput(); err != nil {
-				res.Logf("C10: index %s failed: %v %s\n", f, err, out)
-			}
+	jsonDB := filepath.Join(dir, "sigs.json")
+	for _, f := range files {
+		cmd := exec.Command(sfw, "index", "--name", "T", "--db", jsonDB, f)
+		cmd.Dir = root
+		if out, err := cmd.CombinedOutput(); err != nil {
+			res.Logf("C10: index %s failed: %v %s\n", f, err, out)
 		}
+	}
+	// a hand-maintained signature: the Beacon signature also lists the sibling's string, so the
+	// two Beacon functions match it with identical scores but different strings_matched
+	if b, err := os.ReadFile(jsonDB); err == nil {
+		var doc map[string]any
+		if json.Unmarshal(b, &doc) == nil {
+			if sigs, ok := doc["signatures"].([]any); ok {
+				for _, x := range sigs {
+					m, _ := x.(map[string]any)
+					if m != nil && m["name"] == "T_Beacon" {
+						if feat, ok := m["identifying_features"].(map[string]any); ok {
+							feat["string_patterns"] = []any{"cmd-aaa", "cmd-bbb"}
+						}
+					}
+				}
+			}
+			nb, _ := json.MarshalIndent(doc, "", "  ")
+			os.WriteFile(jsonDB, nb, 0o600)
+		}
+	}
+	if out, err := exec.Command(sfw, "migrate", "--from", jsonDB, "--to", filepath.Join(dir, "sigs.db")).CombinedOutput(); err != nil {
+		res.Logf("C10: migrate failed: %v %s\n", err, out)
 	}
 	inputs = append(inputs,
 		input{name: "check/tree", args: []string{"check", "--no-sandbox", root}, dir: root, tied: true},
